@@ -249,12 +249,17 @@ const ATAN_FRAC_3_2: TwoFloat = TwoFloat {
     lo: hexf64!("0x1.007887af0cbbdp-56"),
 };
 
+// pi/2 - FRAC_PI_2: the third word of pi/2
+const FRAC_PI_2_TAIL: f64 = hexf64!("-0x1.f1976b7ed8fbcp-110");
+
 fn quadrant(value: TwoFloat) -> (TwoFloat, i8) {
     if value.abs() < FRAC_PI_4 {
         (value, 0)
     } else {
         let quotient = (value / FRAC_PI_2).round();
-        let remainder = value - quotient * FRAC_PI_2;
+        // FRAC_PI_2 is pi/2 rounded to two words; without the next word the remainder
+        // is exactly zero for the double-double nearest to a multiple of pi/2
+        let remainder = value - quotient * FRAC_PI_2 - quotient * FRAC_PI_2_TAIL;
         match i8::try_from(quotient % 4.0) {
             Ok(quadrant) if quadrant >= 0 => (remainder, quadrant),
             Ok(quadrant) if quadrant >= -4 => (remainder, 4 + quadrant),
